@@ -101,6 +101,7 @@ type EventBus struct {
 
 	// Optional persistence fields (nil if not using persistence)
 	store                   EventStore
+	persistOnPublish        bool
 	subscriptionStore       SubscriptionStore
 	lastOffset              Offset
 	storeMu                 sync.RWMutex
@@ -349,6 +350,12 @@ func PublishContext[T any](bus *EventBus, ctx context.Context, event T) {
 	}
 	if bus.beforePublishCtx != nil {
 		bus.beforePublishCtx(ctx, eventType, event)
+	}
+
+	// Persist the event (enabled by WithStore). This does not go through the
+	// beforePublishCtx slot, so a user hook installed later cannot displace it
+	if bus.persistOnPublish {
+		bus.persistEvent(ctx, eventType, event)
 	}
 
 	// Get handlers from appropriate shard
